@@ -4,8 +4,8 @@
    domain.  This file shows that what `entered` activates for such a tree is, below each of its roots, a complete
    sub-configuration (`Closed`), and concludes with the replacement lemma that the resulting configuration is legal. *)
 From XSM Require Import Model.Macro Proofs.TreeP Proofs.GuardP Proofs.StepP Proofs.LegalP Proofs.DescentP Proofs.EffectP
-     Proofs.PreserveP Proofs.SnapP.
-From Coq Require Import Lia Permutation.
+     Proofs.PreserveP Proofs.SnapP Proofs.AccountP.
+From Coq Require Import Lia Permutation Sorting.Sorted.
 
 Section TreeEntry.
   Variable m : machine.
@@ -259,6 +259,121 @@ Section TreeEntry.
       exists x. split; [now apply reach_desc | exact Hy].
     - intros [r [[Hrl Hrp] Hy]]. apply (tset_spec (S f) r Hrl) in Hy as [x' [Hr Hy]]; [|unfold f; lia].
       exists (contrib x'). split; [|exact Hy]. apply in_map. now apply (lreach_in r).
+  Qed.
+
+  (* ---- every state is entered once: the entered list has no duplicates ---- *)
+  (* each member's contribution: itself plus the default descents of some of its children outside the list *)
+  Lemma contrib_shape x : In x l -> exists S, contrib x = x :: List.concat (map (descent f m) S) /\ NoDup (contrib x)
+                                     /\ (forall c, In c S -> In c (children m x) /\ ~ In c l).
+  Proof.
+    intros Hx. pose proof (Lrange x Hx) as Hxs.
+    pose proof (descent_nodup m Hwf (S f) x Hxs) as Hnd. cbn [descent] in Hnd.
+    unfold contrib. rewrite with_parent_all.
+    destruct (kind_of m x) eqn:Hk; try (exists []; split; [reflexivity | split; [repeat constructor; intros [] | intros c []]]).
+    - destruct (n_initial (nd m x)) as [i|] eqn:Hi; [|exists []; split; [reflexivity | split; [repeat constructor; intros [] | intros c []]]].
+      destruct (mem x (parents_of m l)) eqn:Em; [exists []; split; [reflexivity | split; [repeat constructor; intros [] | intros c []]]|].
+      assert (Hok : ok_list m [i]) by (apply (ok_children m Hwf x); [exact Hxs | intros z Hz; destruct Hz as [E|[]]; subst z; now apply (initial_child m Hwf x i)]).
+      exists [i]. split; [now rewrite (entered_ok m Hwf f [i] Hok)|]. split.
+      + rewrite (entered_ok m Hwf f [i] Hok). unfold kids in Hnd. rewrite Hk, Hi in Hnd. exact Hnd.
+      + intros c Hc. destruct Hc as [E|[]]. subst c. split; [now apply (initial_child m Hwf x i)|].
+        intros HiP. apply mem_false in Em. apply Em. apply (in_parents_of m). exists i. split; [exact HiP|].
+        now destruct (child_props m Hwf x i Hxs (initial_child m Hwf x i Hxs Hi)) as [_ [_ Hp]].
+    - set (regs' := filter (fun c => negb (is_history m c) && negb (mem c l)) (children m x)).
+      assert (Hok : ok_list m regs') by (apply (ok_children m Hwf x); [exact Hxs | intros z Hz; apply filter_In in Hz; tauto]).
+      exists regs'. split; [now rewrite (entered_ok m Hwf f regs' Hok)|]. split.
+      + rewrite (entered_ok m Hwf f regs' Hok). unfold kids in Hnd. rewrite Hk in Hnd.
+        assert (Er : regs' = filter (fun c => negb (mem c l)) (filter (fun c => negb (is_history m c)) (children m x))).
+        { unfold regs'. clear. induction (children m x) as [|c r IH]; simpl; [reflexivity|]. destruct (negb (is_history m c)); simpl; [destruct (negb (mem c l)); simpl; now rewrite IH | exact IH]. }
+        rewrite Er. inversion Hnd as [|? ? Hx' Hrest]; subst. constructor.
+        * intros Hin. apply Hx'. apply in_concat in Hin as [l' [Hl' Hy]]. apply in_map_iff in Hl' as [c [<- Hc]]. apply filter_In in Hc as [Hc _].
+          apply in_concat. exists (descent f m c). split; [now apply in_map | exact Hy].
+        * now apply AccountP.nodup_concat_filter.
+      + intros c Hc. unfold regs' in Hc. apply filter_In in Hc as [Hc Hb]. split; [exact Hc|]. apply andb_prop in Hb as [_ Hb].
+        apply negb_true_iff in Hb. now apply mem_false.
+  Qed.
+
+  (* what a member contributes lies at or below it; anything strictly below it lies below one of its children outside l *)
+  Lemma contrib_below x z : In x l -> In z (contrib x) ->
+    z < size m /\ desc m z x /\ (z = x \/ exists c, In c (children m x) /\ ~ In c l /\ desc m z c).
+  Proof.
+    intros Hx Hz. pose proof (Lrange x Hx) as Hxs. destruct (contrib_shape x Hx) as [S [E [_ HS]]]. rewrite E in Hz.
+    destruct Hz as [<-|Hz]; [split; [exact Hxs|]; split; [apply desc_refl | now left]|].
+    apply in_concat in Hz as [l2 [Hl2 Hz2]]. apply in_map_iff in Hl2 as [c [<- Hc]].
+    destruct (HS c Hc) as [Hcx Hcl]. destruct (child_props m Hwf x c Hxs Hcx) as [_ [Hcs Hpc]].
+    destruct (descent_ge m Hwf f c z Hcs Hz2) as [_ Hzs]. pose proof (descent_desc m Hwf f c z Hcs Hz2) as Hzc.
+    split; [exact Hzs|]. split.
+    - apply (desc_trans m Hwf c x Hcs); [apply (desc_child m Hwf c x x Hcs Hpc), desc_refl | exact Hzs | exact Hzc].
+    - right. exists c. now repeat split.
+  Qed.
+
+  Lemma contrib_disjoint x y z : In x l -> In y l -> x <> y -> In z (contrib x) -> In z (contrib y) -> False.
+  Proof.
+    intros Hx Hy Hne Hzx Hzy.
+    pose proof (Lrange x Hx) as Hxs. pose proof (Lrange y Hy) as Hys.
+    destruct (contrib_below x z Hx Hzx) as [Hzs [Dx Cx]]. destruct (contrib_below y z Hy Hzy) as [_ [Dy Cy]].
+    (* a member strictly below another member lies below one of that member's children - which is then a member too *)
+    assert (Key : forall a b, In a l -> In b l -> a <> b -> desc m b a ->
+              forall c, In c (children m a) -> ~ In c l -> desc m z c -> desc m z b -> False).
+    { intros a b Ha Hb Hab Hba c Hca Hcl Hzc Hzb. pose proof (Lrange a Ha) as Has. pose proof (Lrange b Hb) as Hbs.
+      destruct (below_some_child m Hwf b a Hbs Hba (not_eq_sym Hab)) as [c' [Hc'a Hbc']].
+      assert (c' = c).
+      { apply (siblings_disjoint m Hwf a c' c z Has Hzs Hc'a Hca); [|exact Hzc].
+        destruct (child_props m Hwf a c' Has Hc'a) as [_ [Hc's _]]. apply (desc_trans m Hwf b c' Hbs Hbc' z Hzs Hzb). }
+      subst c'. apply Hcl. destruct (l_below a Ha) as [Had Hlt]. destruct (child_props m Hwf a c Has Hca) as [Hac [Hcs Hpc]].
+      apply (between_in_l b Hb c Hbc'); [lia|]. apply (desc_child m Hwf c a d Hcs Hpc). exact Had. }
+    (* x and y are both ancestors-or-self of z: one lies below the other *)
+    assert (Hcmp : desc m x y \/ desc m y x).
+    { pose proof (anc_self_sorted m Hwf z Hzs) as Hs. unfold desc in Dx, Dy.
+      destruct (Nat.le_ge_cases (depth m x) (depth m y)) as [Hle|Hle].
+      - right. clear -Hwf Hs Dx Dy Hle Hys Hzs. revert Dx Dy. generalize (anc_self_sorted m Hwf z Hzs). intros _.
+        (* y is at or below x on the ancestor chain of z *)
+        assert (G : forall q, q < size m -> In x (anc_self m q) -> In y (anc_self m q) -> depth m x <= depth m y -> In x (anc_self m y)).
+        { intros q. induction q as [q IH] using (well_founded_induction lt_wf). intros Hq Hxq Hyq Hdep.
+          destruct (desc_cases m Hwf q y Hq Hyq) as [->|[p [Hp Hyp]]]; [exact Hxq|].
+          destruct (desc_cases m Hwf q x Hq Hxq) as [->|[p' [Hp' Hxp]]].
+          - exfalso. destruct (parent_props m Hwf q p Hq Hp) as [_ [_ D]]. assert (Hps : p < size m) by (eapply parent_lt_size; eassumption).
+            pose proof (desc_depth m Hwf p y Hps Hyp). lia.
+          - rewrite Hp in Hp'. inversion Hp'; subst p'. destruct (parent_props m Hwf q p Hq Hp) as [Hlt _].
+            apply (IH p Hlt); [lia | exact Hxp | exact Hyp | exact Hdep]. }
+        intros Dx Dy. exact (G z Hzs Dx Dy Hle).
+      - left. assert (G : forall q, q < size m -> In y (anc_self m q) -> In x (anc_self m q) -> depth m y <= depth m x -> In y (anc_self m x)).
+        { intros q. induction q as [q IH] using (well_founded_induction lt_wf). intros Hq Hyq Hxq Hdep.
+          destruct (desc_cases m Hwf q x Hq Hxq) as [->|[p [Hp Hxp]]]; [exact Hyq|].
+          destruct (desc_cases m Hwf q y Hq Hyq) as [->|[p' [Hp' Hyp]]].
+          - exfalso. destruct (parent_props m Hwf q p Hq Hp) as [_ [_ D]]. assert (Hps : p < size m) by (eapply parent_lt_size; eassumption).
+            pose proof (desc_depth m Hwf p x Hps Hxp). lia.
+          - rewrite Hp in Hp'. inversion Hp'; subst p'. destruct (parent_props m Hwf q p Hq Hp) as [Hlt _].
+            apply (IH p Hlt); [lia | exact Hyp | exact Hxp | exact Hdep]. }
+        exact (G z Hzs Dy Dx Hle). }
+    destruct Hcmp as [Hxy|Hyx].
+    - (* x lies below y: z is x's or below x, so below the child of y that x lies under - a member *)
+      destruct Cy as [->|[c [Hc [Hcl Hzc]]]].
+      + (* z = y is at or below x which is at or below y: x = y *)
+        apply Hne. pose proof (desc_depth m Hwf y x Hys Dx). pose proof (desc_depth m Hwf x y Hxs Hxy).
+        destruct (desc_cases m Hwf x y Hxs Hxy) as [E|[p [Hp Hpy]]]; [congruence|].
+        destruct (parent_props m Hwf x p Hxs Hp) as [_ [_ D]]. assert (Hps : p < size m) by (apply (parent_lt_size m Hwf x p Hxs Hp)).
+        pose proof (desc_depth m Hwf p y Hps Hpy). lia.
+      + apply (Key y x Hy Hx (not_eq_sym Hne) Hxy c Hc Hcl Hzc Dx).
+    - destruct Cx as [->|[c [Hc [Hcl Hzc]]]].
+      + apply Hne. pose proof (desc_depth m Hwf x y Hxs Dy). pose proof (desc_depth m Hwf y x Hys Hyx).
+        destruct (desc_cases m Hwf y x Hys Hyx) as [E|[p [Hp Hpx]]]; [congruence|].
+        destruct (parent_props m Hwf y p Hys Hp) as [_ [_ D]]. assert (Hps : p < size m) by (apply (parent_lt_size m Hwf y p Hys Hp)).
+        pose proof (desc_depth m Hwf p x Hps Hpx). lia.
+      + apply (Key x y Hx Hy Hne Hyx c Hc Hcl Hzc Dy).
+  Qed.
+
+  Theorem entered_tree_nodup : NoDup l -> NoDup (entered (S f) m l).
+  Proof.
+    intros Hnd. rewrite entered_contrib.
+    assert (G : forall l0, NoDup l0 -> incl l0 l -> NoDup (List.concat (map contrib l0))).
+    { induction l0 as [|x r IH]; intros Hn Hi; [constructor|]. cbn [map List.concat].
+      inversion Hn as [|? ? Hxr Hr]; subst.
+      assert (Hx : In x l) by (apply Hi; now left).
+      destruct (contrib_shape x Hx) as [_ [_ [NB _]]].
+      apply nodup_app; [exact NB | apply IH; [exact Hr | intros y Hy; apply Hi; now right]|].
+      intros z Hz Hin. apply in_concat in Hin as [l' [Hl' Hz']]. apply in_map_iff in Hl' as [y [<- Hy]].
+      apply (contrib_disjoint x y z Hx (Hi y (or_intror Hy))); [intros ->; contradiction | exact Hz | exact Hz']. }
+    apply G; [exact Hnd | intros y Hy; exact Hy].
   Qed.
 
   (* ---- the resulting configuration is legal ---- *)
